@@ -11,6 +11,8 @@ MANIFEST = dict(
     note='Trusted: TLC, CommunityModules Json, the harness renderer (signature/argument -> text) and the structural AST exporter. A register in an immediate-only slot counts as diagnosed when truth warns about it. Float values are compared as bit patterns; NaN payloads are not exercised. Quick tier replays a fixed stride of the length-2/3 families plus a seed-chosen sample; thorough replays all.',
 )
 
+# few GC threads and C1-only compilation: the TLC runs are short and the machine is shared
+JVM = "-XX:ParallelGCThreads=2 -XX:TieredStopAtLevel=1 -Xmx3g"
 WARN_REG_IN_IMM = "non-constant expression in immediate argument"
 
 
@@ -78,13 +80,22 @@ def sig_has_pad_before_arg(case):
 
 
 def classify_rejection(case, side):
-    """an argument list that has an encoding was rejected: name the class"""
+    """an argument list that has an encoding was rejected: name the class.  `pad-shift`: the k-th argument is
+    checked against the k-th *parameter including padding* (observable structure: the parameter standing at
+    the argument's position is a padding/const-only one, or one of the other type)"""
     full = side["err"]["full"]
     if sig_has_pad_before_arg(case):
-        if "type error" in full and "expects" in full:
-            return "pad-shift:type-error"
-        if "compile-time constant" in full and "padding" in full:
-            return "pad-shift:register-rejected"
+        sig, args = case["sig"], case["args"]
+        ty_arg = lambda a: "f" if a["k"] in ("fimm", "freg") else "s" if a["k"] == "str" else "i"
+        ty_par = lambda p: "f" if p["ch"] == "f" else "s" if p["ch"] in "zmp" else "i"
+        for k, a in enumerate(args):
+            if k >= len(sig):
+                break
+            p = sig[k]                       # the parameter at the argument's position, padding included
+            if "type error" in full and ty_arg(a) != ty_par(p):
+                return "pad-shift:type-error"
+            if "compile-time constant" in full and a["k"] in ("reg", "freg") and (p["ch"] in "_-ot" or "arg0" in p["attrs"]):
+                return "pad-shift:register-rejected"
     return "rejected:" + (side["err"]["errors"] or ["?"])[0][:60]
 
 
@@ -196,10 +207,10 @@ def run(chk, replay=None):
     if replay:
         stride2, stride3 = str(N2 + 1), str(N3 + 1)
     common = {"EXTRA": extra, "STRIDE2": stride2, "STRIDE3": stride3,
-              "SHARD": "0", "NSHARDS": "1", "_JAVA_OPTIONS": "-XX:ParallelGCThreads=2"}
+              "SHARD": "0", "NSHARDS": "1", "_JAVA_OPTIONS": JVM}
 
     def t_bytes():
-        return lib.tlc("MC_ArgCodec", env={"_JAVA_OPTIONS": "-XX:ParallelGCThreads=2"}, workers=1, timeout=900)
+        return lib.tlc("MC_ArgCodec", env={"_JAVA_OPTIONS": JVM}, workers=1, timeout=900)
 
     def t_check():
         return lib.tlc("Gen_ArgCodec", env=dict(common, MODE="check", SM="1" if thorough else "8", SM2="1" if thorough else "2", OUT=os.devnull),
@@ -240,7 +251,9 @@ def run(chk, replay=None):
     p = lib.vh(["c12", cases_path])
     walls["harness"] = round(time.time() - t0, 1)
     obs = {}
-    for line in p.stdout.splitlines():
+    for line in p.stdout.split("\n"):
+        if not line.strip():
+            continue
         o = json.loads(line)
         obs[o["id"]] = o
     fams = {}
